@@ -14,7 +14,8 @@ META = {
     "technique": "runtime comparison of the produced graph with the declared machine through two independent readings (pydot object API and Graphviz `dot -Tjson` of the DOT text)",
     "rule": (
         "cases = machines of the C01 generator (parallel edges, self-loops, internal transitions, final "
-        "states, multi-event transitions, cond/unless guards, from_.any(), falsy/typed state values), as "
+        "states, multi-event transitions, cond/unless guards, from_.any(), falsy/typed state values, state ids "
+        "that are DOT keywords or the pseudo-node's own id), as "
         "class diagram and as instance diagram at EVERY state of the machine (moved there through the "
         "public low-level setter); per graph: node set == state ids + initial pseudo-node, edge multiset "
         "== {pseudo->initial} + one (source,target) per external transition, each edge label carries its "
@@ -24,8 +25,8 @@ META = {
         "with an internal transition, a final state or parallel edges."
     ),
     "assumptions": [
-        "DOT keywords are not used as state ids (quoting is pydot's business)",
-        "a state with id `i` collides with the initial pseudo-node: probed separately and reported under its own mechanism (W16)",
+        "35% of the machines use state ids that mean something to DOT or to the diagram code (i, _i, node, edge, graph, digraph, subgraph, strict, label, list, capitalised variants); an unquoted node/edge/graph statement is read as what DOT says it is (default attributes), not as a node",
+        "a state with id `i` next to the initial pseudo-node is also probed on a fixed two-state machine (W16, repaired)",
         "highlight = node whose fill colour differs from the most common fill among state nodes (ties: differs from white)",
     ],
     "must_observe": ["graphs", "instance_graphs", "dot_json_readings", "edges_checked", "internal_checked"],
@@ -35,7 +36,8 @@ META = {
 PROFILE = {"n_states": (1, 6), "n_events": (1, 4), "extra_transitions": (1, 7), "p_multi_event": 0.3,
            "p_guard": 0.5, "p_validator": 0.05, "p_conv": 0.1, "p_inline": 0.25, "p_deco": 0.05,
            "providers": ["sm", "model"], "p_any": 0.25, "p_internal": 0.5, "p_self": 0.35, "p_final": 0.25,
-           "async_mode": "none"}
+           "async_mode": "none", "p_state_ids": 0.35,
+           "state_ids": ["i", "_i", "I", "j", "n", "node", "edge", "graph", "digraph", "subgraph", "strict", "label", "list", "Node"]}
 
 
 def unq(s):
@@ -47,9 +49,10 @@ def unq(s):
 def read_pydot(graph):
     nodes = {}
     for n in graph.get_nodes():
-        name = unq(n.get_name())
-        if name in ("node", "edge", "graph"):
-            continue
+        raw = n.get_name()
+        name = unq(raw)
+        if raw.lower() in ("node", "edge", "graph"):
+            continue        # unquoted: a DOT default-attribute statement, not a node
         a = n.get_attributes()
         nodes.setdefault(name, []).append({"label": unq(a.get("label", "")), "peripheries": str(a.get("peripheries", "")),
                                            "fillcolor": unq(str(a.get("fillcolor", ""))), "shape": unq(str(a.get("shape", "")))})
@@ -93,6 +96,7 @@ def judge(spec, nodes, edges, current, reading, counters):
         out.append(("node-declared-twice", f"{reading}: nodes {dup} appear more than once"))
     if sorted(n for n in nodes if n in sids) != sorted(sids):
         out.append(("state-node-missing", f"{reading}: state nodes {sorted(n for n in nodes if n in sids)} != states {sorted(sids)}"))
+        return out
     if len(pseudo) != 1:
         out.append(("initial-pseudo-node", f"{reading}: expected exactly one initial pseudo-node, found {pseudo}"))
         return out
